@@ -24,8 +24,12 @@ Models == [
   MD |-> << Eq("x", "none", << <<1, "y", 0, "lin">> >>, 1),
             Eq("y", "none", << <<2, "y", CNeg1, "lin">> >>, 0) >>,
   ME |-> << Eq("y", "none", << <<2, "y", CNeg1, "lin">>, <<1, "y", CNeg2, "lin">> >>, 0),
-            Eq("x", "diff", << <<1, "y", 0, "lin">>, <<CNeg1, "x", CNeg2, "lin">> >>, 1) >> ]
-ModelIds == {"MA", "MB", "MC", "MD", "ME"}
+            Eq("x", "diff", << <<1, "y", 0, "lin">>, <<CNeg1, "x", CNeg2, "lin">> >>, 1) >>,
+  \* no lag on any right-hand side: the only lags are those implied by the left-hand transforms
+  MF |-> << Eq("x", "diff", <<>>, 1),
+            Eq("u", "roc", << <<1, "x", 0, "lin">> >>, 0),
+            Id("z", << <<1, "x", 0, "lin">>, <<1, "u", 0, "lin">> >>, 0) >> ]
+ModelIds == {"MA", "MB", "MC", "MD", "ME", "MF"}
 Span == <<1, 2, 3>>
 Periods == CNeg2..3
 
@@ -34,7 +38,8 @@ PlanPairs == [MA |-> {<<"x", "none">>, <<"x", "diff">>, <<"y", "none">>, <<"y", 
               MB |-> {<<"w", "none">>, <<"u", "roc">>, <<"v", "pct">>},
               MC |-> {<<"r", "diff_log">>, <<"r", "log">>, <<"p", "log">>},
               MD |-> {<<"x", "none">>, <<"y", "diff">>},
-              ME |-> {<<"x", "diff">>, <<"y", "none">>}]
+              ME |-> {<<"x", "diff">>, <<"y", "none">>},
+              MF |-> {<<"x", "none">>, <<"x", "diff">>, <<"u", "roc">>}]
 \* thorough tier: Deep <- DeepOn in the cfg (more exogenized period patterns, pairs of plan entries over more masks)
 Deep == FALSE
 DeepOn == TRUE
